@@ -11,7 +11,10 @@ import (
 	"fmt"
 	"math"
 	"net/netip"
+	"strings"
+	"sync"
 	"testing"
+	"time"
 
 	"github.com/jsimonetti/rtnetlink"
 	"github.com/mdlayher/corerad/internal/verifkit"
@@ -21,18 +24,18 @@ import (
 )
 
 type osAddr struct {
-	Addr   string `json:"addr"`
-	Bits   uint8  `json:"bits"`
-	Flags  uint32 `json:"flags"`
-	Valid  uint32 `json:"valid_lft"`
-	Pref   uint32 `json:"preferred_lft"`
+	Addr  string `json:"addr"`
+	Bits  uint8  `json:"bits"`
+	Flags uint32 `json:"flags"`
+	Valid uint32 `json:"valid_lft"`
+	Pref  uint32 `json:"preferred_lft"`
 }
 
 type osRoute struct {
-	Dst    string `json:"dst"`
-	Bits   uint8  `json:"bits"`
-	Pref   int    `json:"pref"` // -1 = attribute absent
-	OutIf  uint32 `json:"oif"`
+	Dst   string `json:"dst"`
+	Bits  uint8  `json:"bits"`
+	Pref  int    `json:"pref"` // -1 = attribute absent
+	OutIf uint32 `json:"oif"`
 }
 
 type osCase struct {
@@ -218,6 +221,57 @@ func osFlags(yield func(osCase) bool) {
 	}
 }
 
+// osOverlapProp: two address listings for one interface at the same time (two RA builds: the advertiser's and a
+// scrape's), the first one still waiting for the kernel when the second one starts; the dump fails for both, or succeeds
+// for both. Whatever the code shares between the two calls, each caller must get the error, or the full listing.
+func osOverlapProp(k *verifkit.Kit) func(c osCase) error {
+	return func(c osCase) error {
+		fails := c.Errno != ""
+		k.Record(c, true, fmt.Sprintf("os-overlap:dump-fails=%v", fails))
+		entered, release := make(chan struct{}), make(chan struct{})
+		var once sync.Once
+		a := &addresser{execute: func(m rtnetlink.Message, family uint16, flags netlink.HeaderFlags) ([]rtnetlink.Message, error) {
+			first := false
+			once.Do(func() { first = true })
+			if first {
+				close(entered)
+				<-release
+			}
+			if fails {
+				return nil, &netlink.OpError{Op: "receive", Err: unix.ENOBUFS}
+			}
+			var out []rtnetlink.Message
+			if req, ok := m.(*rtnetlink.AddressMessage); ok {
+				for _, x := range c.Addrs {
+					out = append(out, &rtnetlink.AddressMessage{Family: unix.AF_INET6, PrefixLength: x.Bits, Index: req.Index,
+						Attributes: &rtnetlink.AddressAttributes{Address: netip.MustParseAddr(x.Addr).AsSlice(), Flags: x.Flags, CacheInfo: rtnetlink.CacheInfo{Valid: x.Valid, Prefered: x.Pref}}})
+				}
+			}
+			return out, nil
+		}}
+		type res struct {
+			ips []IP
+			err error
+		}
+		r1, r2 := make(chan res, 1), make(chan res, 1)
+		go func() { ips, err := a.AddressesByIndex(c.Index); r1 <- res{ips, err} }()
+		<-entered
+		go func() { ips, err := a.AddressesByIndex(c.Index); r2 <- res{ips, err} }()
+		time.Sleep(300 * time.Microsecond) // (if the second caller waits for the first one's result, let it get there)
+		close(release)
+		for i, ch := range []chan res{r1, r2} {
+			r := <-ch
+			switch {
+			case fails && r.err == nil:
+				return verifkit.Violf("OS/dump-failure-swallowed", "two listings at once and the dump fails: caller %d got %v and no error", i+1, r.ips)
+			case !fails && (r.err != nil || len(r.ips) != len(c.Addrs)):
+				return verifkit.Violf("OS/overlapping-listings", "two listings at once: caller %d got %d of %d addresses, error %v", i+1, len(r.ips), len(c.Addrs), r.err)
+			}
+		}
+		return nil
+	}
+}
+
 func testVerifOS(t *testing.T, id string) {
 	k := verifkit.Start(t, id)
 	prop := osProp(k)
@@ -225,10 +279,14 @@ func testVerifOS(t *testing.T, id string) {
 		if len(sub) < 2 || sub[:2] != "os" {
 			return nil
 		}
+		if strings.HasPrefix(sub, "os-overlapping") {
+			return verifkit.Decode(raw, osOverlapProp(k))
+		}
 		return verifkit.Decode(raw, prop)
 	})
 	verifkit.Enumerate(k, t, "os-flag-singles-and-pairs", true, osFlags, prop)
 	verifkit.Rapid(k, t, "os-rtnetlink-replies", k.N(2000, 300000), osGen, prop)
+	verifkit.Rapid(k, t, "os-overlapping-listings", k.N(300, 20000), osGen, osOverlapProp(k))
 }
 
 func TestVerif_C13os(t *testing.T) { testVerifOS(t, "C13") }
